@@ -63,6 +63,10 @@ CHECKS = {
    "the full 768-cell table (giaddr x ciaddr x broadcast flag x reply type incl. plugin-made NAK x yiaddr x bound/unbound x arrival link), 3 (quick) / 12 (thorough) repetitions with fresh addresses, inside a private network namespace: UDP destination/port/IP_PKTINFO at the server's WriteTo, link-level unicasts as real frames sniffed on veth peers (link, dst MAC, dst IP, ports, payload).",
    "hlen 6 on the link-level path; needs the namespace (otherwise inconclusive).",
    "decision-table monitor over the capture hook and an AF_PACKET sniffer", "4 C15"),
+ "C16": ("raceserver+rangeconc+prefixconc+allocconc", "exploration",
+   "four -race workloads (24+64+64+160 histories quick; x12 thorough): dual-stack full chains in one process with sleep-widened windows, concurrent in-place rewrites of both static lease files and bursts of 4-64 datagrams each on its own goroutine with pooled receive buffers (echo/lease/prefix/static-version monitors), and recorded call/return histories of the range plugin, prefix plugin and both allocators checked for linearizability with porcupine; the Go race detector's reports (log parsed, deduplicated, coredhcp frames required) decide the data-race half.",
+   "race detector judges executed accesses only; schedules are the scheduler's (overlap pairs, buffer-reuse-in-flight and porcupine verdict counts are in the evidence).",
+   "Go race detector + porcupine linearizability checking of recorded histories + reply-echo/version-trace monitors", "4 C16"),
  "C17": ("opt", "exploration",
    "160 (quick) / 3072 (thorough) option-plugin configurations from the accepted grammar, each hosted alone in a fresh server process and sent 48 requests (request-list subsets incl. absent, OFFER/ACK, yiaddr assigned or not, option 51 pre-set or not); differential oracle against the same chain without the plugin: exactly the configured value (encoded independently from the RFCs), once, untouched otherwise, chain continues/stops/drops as stated.",
    "values outside the wire range and duplicate codes in request lists are outside the quantifier; nbp's stop is not asserted.",
